@@ -254,7 +254,7 @@ func (_this *Context) NotifyKey(key interface{}) {
 		copy(uid[:], v)
 		key = uid
 	case compact_time.Time:
-		key = v.String()
+		key = timekey(v.String())
 	case *big.Int:
 		if v.IsUint64() {
 			key = v.Uint64()
